@@ -368,3 +368,55 @@ Proof.
   unfold ge_dirs at 2, ge_files at 2. cbn [filter]. rewrite Hsp, Hv. cbn [orb negb andb].
   destruct (is_dir e); cbn [negb]; rewrite !Hfa, Hnd; cbn [find]; rewrite ?Hm, ?Hnf; cbn [find]; rewrite ?Hm; reflexivity.
 Qed.
+
+(** * what the reader returns for ARBITRARY directory bytes (any foreign layout, C07): exactly the live short slots, in
+    order, up to the end mark — nothing invented, nothing dropped, deleted slots and long-name slots never returned as
+    entries *)
+Fixpoint live_slots (fuel:nat) (b:list Z) : list (list Z) :=
+  match fuel with
+  | O => []
+  | S f =>
+    match b with
+    | [] => []
+    | _ =>
+      let slot := firstn 32 b in let rest := skipn 32 b in
+      if (length slot <? 32)%nat then [] else
+      let first := nthZ slot 0 in
+      if first =? Gen.LAST_DIR_ENTRY_MARK then []
+      else if first =? Gen.FREE_DIR_ENTRY_MARK then live_slots f rest
+      else if Gen.is_lfn_entry first (nthZ slot 11) then live_slots f rest
+      else slot :: live_slots f rest
+    end
+  end.
+Definition strip_lfn (e:dirent) : dirent := set_lfn e None.
+Lemma strip_set e l : strip_lfn (set_lfn e l) = strip_lfn e.
+Proof. destruct e; reflexivity. Qed.
+Lemma strip_parse b : strip_lfn (parse_short b) = parse_short b.
+Proof. reflexivity. Qed.
+Theorem scan_returns_live_slots f : forall b pend acc acc' pend' stop,
+  scan_slots f b pend acc = Ok (acc', pend', stop) ->
+  map strip_lfn acc' = map strip_lfn acc ++ map parse_short (live_slots f b).
+Proof.
+  induction f as [|g IH]; intros b pend acc acc' pend' stop H.
+  - cbn in H. inversion H; subst. cbn. rewrite app_nil_r. reflexivity.
+  - destruct b as [|x r]; [cbn in H; inversion H; subst; cbn; rewrite app_nil_r; reflexivity|].
+    rewrite scan_nonempty_unfold in H by discriminate. cbv zeta in H.
+    cbn [live_slots]. cbv zeta.
+    destruct (length (firstn 32 (x :: r)) <? 32)%nat; [discriminate|].
+    destruct (nthZ (firstn 32 (x :: r)) 0 =? Gen.LAST_DIR_ENTRY_MARK); [inversion H; subst; cbn; rewrite app_nil_r; reflexivity|].
+    destruct (nthZ (firstn 32 (x :: r)) 0 =? Gen.FREE_DIR_ENTRY_MARK); [eapply IH; exact H|].
+    destruct (Gen.is_lfn_entry _ _).
+    + destruct (negb _); [discriminate|]. destruct (existsb _ _); [discriminate|]. eapply IH; exact H.
+    + apply IH in H. rewrite H, map_app. cbn [map]. rewrite strip_set, strip_parse, <- app_assoc. reflexivity.
+Qed.
+Corollary scan_count_bound f b acc' pend' stop : scan_slots f b [] [] = Ok (acc', pend', stop) -> (length acc' <= f)%nat /\ (32 * length acc' <= length b)%nat.
+Proof.
+  intros H. apply scan_returns_live_slots in H. cbn [map app] in H. apply (f_equal (@length dirent)) in H. rewrite !map_length in H. rewrite H.
+  clear. revert b. induction f as [|g IH]; intros b; [cbn; lia|]. destruct b as [|x r]; [cbn; lia|]. cbn [live_slots]. cbv zeta.
+  destruct (length (firstn 32 (x :: r)) <? 32)%nat eqn:E; [cbn; lia|]. apply Nat.ltb_ge in E.
+  assert (Hl : (32 <= length (x :: r))%nat) by (rewrite firstn_length in E; lia).
+  assert (Hs : length (skipn 32 (x :: r)) = (length (x :: r) - 32)%nat) by apply skipn_length.
+  destruct (_ =? Gen.LAST_DIR_ENTRY_MARK); [cbn; lia|].
+  destruct (_ =? Gen.FREE_DIR_ENTRY_MARK); [specialize (IH (skipn 32 (x :: r))); lia|].
+  destruct (Gen.is_lfn_entry _ _); [specialize (IH (skipn 32 (x :: r))); lia|]. specialize (IH (skipn 32 (x :: r))). cbn [length] in *. lia.
+Qed.
